@@ -205,6 +205,43 @@ impl SizeSerializer {
         r is Err ==> old(self).is_array_element is False && utf8(v@).len() > 0xffff_fffb,                    // [C20.size.str-refusal] refused exactly when the encoder refuses
 //@@ end
 
+//@@ fn file=serde_amqp/src/size_ser.rs impl=`~ser::Serializer for &'a mut SizeSerializer` name=serialize_bool as=size_bool
+//@@ selfmut
+//@@ ret Result<usize, Error>
+//@@ spec
+    ensures
+        final(self).is_array_element == old(self).is_array_element, final(self).non_native_type == old(self).non_native_type,
+        r is Ok && r->Ok_0 == (if old(self).is_array_element is FirstElement { 2int } else { 1int }),      // [C20.size.bool] serialized_size of a boolean == the octets the encoder writes ([C05.bool.encoding] / [C05.bool.array-element] above): one (0x41 / 0x42, or the bare data octet of a later array element), two for the first array element (0x56 + data)
+//@@ end
+
+//@@ fn file=serde_amqp/src/size_ser.rs impl=`~ser::Serializer for &'a mut SizeSerializer` name=serialize_none as=size_none
+//@@ selfmut
+//@@ ret Result<usize, Error>
+//@@ spec
+    ensures
+        final(self).is_array_element == old(self).is_array_element, final(self).non_native_type == old(self).non_native_type,
+        r is Ok && r->Ok_0 == 1,      // [C20.size.null] the size of a null is the one octet the encoder writes for it (0x40) -- in every position: the writer repeats it for later array elements (known finding D19), and the size twin counts what is written
+//@@ end
+
+//@@ fn file=serde_amqp/src/size_ser.rs impl=`~ser::Serializer for &'a mut SizeSerializer` name=serialize_unit as=size_unit
+//@@ selfmut
+//@@ ret Result<usize, Error>
+//@@ spec
+    ensures
+        final(self).is_array_element == old(self).is_array_element, final(self).non_native_type == old(self).non_native_type,
+        r is Ok && r->Ok_0 == 1,      // [C20.size.null]
+//@@ end
+
+//@@ fn file=serde_amqp/src/size_ser.rs impl=`~ser::Serializer for &'a mut SizeSerializer` name=serialize_unit_struct as=size_unit_struct
+//@@ selfmut
+//@@ subst `self.serialize_unit()` => `self.size_unit()` rule=R2
+//@@ ret Result<usize, Error>
+//@@ spec
+    ensures
+        final(self).is_array_element == old(self).is_array_element, final(self).non_native_type == old(self).non_native_type,
+        r is Ok && r->Ok_0 == 1,      // [C20.size.null] a unit struct is a null
+//@@ end
+
 //@@ fn file=serde_amqp/src/size_ser.rs impl=`~ser::Serializer for &'a mut SizeSerializer` name=serialize_i64 as=size_i64
 //@@ selfmut
 //@@ ret Result<usize, Error>
